@@ -182,7 +182,15 @@ fn gen_expr(r: &mut Rng, item: &MVal, root: &MVal, cfg: &GenCfg, depth: usize, a
     };
     let lit = if !reached.is_empty() && r.chance(2, 3) { r.pick(&reached).clone() } else { gen_lit(r, base, cfg) };
     let path = Operand::Path(from_cur, steps);
-    if r.chance(1, 8) {
+    let literal_first = r.chance(1, 5);
+    if r.chance(1, 3) {
+        let op = r.pick(&["!=", "<", "<=", ">", ">="]).to_string();
+        if literal_first {
+            MExpr::Cmp(op, Operand::Lit(lit), path)
+        } else {
+            MExpr::Cmp(op, path, Operand::Lit(lit))
+        }
+    } else if literal_first {
         MExpr::Eq(Operand::Lit(lit), path)
     } else {
         MExpr::Eq(path, Operand::Lit(lit))
